@@ -459,6 +459,53 @@ func runC18Direct(c lib.Case, cfg c18Cfg) []string {
 			}
 		case "safe":
 			out = append(out, "safe")
+		case "cfg":
+			// what dkv.New builds when every option is left at its default (Facts.dkvLevelCount, dkvDefaultL0Trigger,
+			// dkvMaxSizeAmpPercent)
+			db0 := dkv.New(dkv.DBOptions{FileSystem: storage.NewMemoryFilesystem(), Logger: slog.New(slog.NewTextHandler(io.Discard, nil))})
+			c0 := db0.VerifCompactor()
+			out = append(out, fmt.Sprintf("levels=%d l0=%d amp=%d", len(db0.VerifLevels().VerifLayout()), c0.L0RunNumCompactionTrigger, c0.MaxSizeAmplificationPercent))
+		case "ages":
+			// Table.Age() of every table (model: sequence number of the first entry of the run)
+			var lv []string
+			for _, l := range d.ll.VerifLayout() {
+				if len(l) == 0 {
+					lv = append(lv, "-")
+					continue
+				}
+				var ts []string
+				for _, ti := range l {
+					ts = append(ts, fmt.Sprintf("%d:%d", d.ids[ti.Table], ti.Table.Age()))
+				}
+				lv = append(lv, strings.Join(ts, ","))
+			}
+			out = append(out, strings.Join(lv, "/"))
+		case "agesort":
+			// every level in the order majorCompaction visits its tables: slices.SortedFunc(level.AllTables(), OrderOldToNew)
+			// (tables of equal age, possible only across checkpoint sources, are listed by id)
+			var lv []string
+			n := len(d.ll.TableCounts())
+			for i := 0; i < n; i++ {
+				ts := slices.SortedFunc(d.ll.At(i).AllTables(), sst.OrderOldToNew)
+				for a := 0; a < len(ts); {
+					b := a
+					for b < len(ts) && ts[b].Age() == ts[a].Age() {
+						b++
+					}
+					slices.SortFunc(ts[a:b], func(x, y *sst.Table) int { return d.ids[x] - d.ids[y] })
+					a = b
+				}
+				if len(ts) == 0 {
+					lv = append(lv, "-")
+					continue
+				}
+				var ss []string
+				for _, t := range ts {
+					ss = append(ss, strconv.Itoa(d.ids[t]))
+				}
+				lv = append(lv, strings.Join(ss, ","))
+			}
+			out = append(out, strings.Join(lv, "/"))
 		case "pick":
 			out = append(out, d.last)
 		case "layout":
@@ -536,7 +583,7 @@ func c18ObserveOps() []string {
 	for _, k := range c18Pool {
 		ops = append(ops, "get "+lib.Hex(k))
 	}
-	ops = append(ops, "scan -", "scan 61", "scan ff", "safe", "pick", "layout")
+	ops = append(ops, "scan -", "scan 61", "scan ff", "safe", "pick", "layout", "ages", "agesort")
 	return ops
 }
 
@@ -546,7 +593,7 @@ func c18GenDirect(r *lib.Rng, tier string) lib.Case {
 	hdr := fmt.Sprintf("M C18 mode=direct levels=%d l0=%d amp=%d smallest=%d target=%d", n,
 		lib.Pick(r, []int{1, 1, 2, 3}), lib.Pick(r, []int{1, 25, 50, 100, 150, 250, 400, 100000}),
 		lib.Pick(r, []int64{1, 2000, 4500, 9000, 1 << 40}), lib.Pick(r, []int{24, 48, 96, 200, 1 << 20}))
-	var ops []string
+	ops := []string{"cfg"}
 	// deeper levels first (oldest data), each level a sorted non-overlapping sequence of tables
 	for lvl := n - 1; lvl >= 1; lvl-- {
 		if r.Chance(1, 4) {
@@ -700,7 +747,7 @@ func c18GenCkpt(r *lib.Rng, tier string) lib.Case {
 			obs = append(obs, "get "+lib.Hex(append([]byte{byte(0x10 * (s + 1))}, sf...)))
 		}
 	}
-	obs = append(obs, "scan -", "scan 10", "scan 2061", "safe", "pick", "layout")
+	obs = append(obs, "scan -", "scan 10", "scan 2061", "safe", "pick", "layout", "ages", "agesort")
 	ops = append(ops, obs...)
 	g := &c18Gen{r: r, seq: 100000}
 	rounds := r.Range(3, 8)
@@ -725,7 +772,7 @@ func c18Fixed() []lib.Case {
 	obs := c18ObserveOps()
 	// D22: L0{k@9}  L2{A: a@1, B: k@5}  base{z@2}, four tables of about the same size, goal 250 %: 300 % before, 200 % after
 	// taking A. The unrepaired picker went on to level 0 and merged k@9 into the base beneath B.
-	d22 := []string{"tbl 3 7a:2:0:01", "tbl 2 61:1:0:02", "tbl 2 6b:5:0:6f6c64", "tbl 0 6b:9:0:6e6577"}
+	d22 := []string{"cfg", "tbl 3 7a:2:0:01", "tbl 2 61:1:0:02", "tbl 2 6b:5:0:6f6c64", "tbl 0 6b:9:0:6e6577"}
 	d22 = append(d22, "compact", "apply")
 	d22 = append(d22, obs...)
 	d22 = append(d22, "compact", "apply")
